@@ -44,6 +44,8 @@ def prefix_program(prog, prefix):
     ren = {c["name"]: prefix + c["name"] for c in p["comps"]}
     for c in p["comps"]:
         c["name"] = ren[c["name"]]
+        if c.get("clsname"):
+            c["clsname"] = "%s_%s" % (c["clsname"], prefix)  # two classes with one import path are ONE class for the library
         if c.get("base") in ren:
             c["base"] = ren[c["base"]]
     for n in list(pgstrat.walk(p["page"]["tpl"])) + [n for c in p["comps"] for n in pgstrat.walk(c["tpl"])]:
